@@ -91,12 +91,13 @@ pub fn def_c01() -> CheckDef {
 }
 
 fn gen_model(w: &mut Tape, syn: Syntax, all_undefined: bool) -> Vec<ds::Elem> {
-    let cs = w.weighted(&[5, 2, 2]);
+    let cs = w.weighted(&[5, 2, 2, 1, 1]);
     let cfg = GenCfg {
         encapsulated: syn == Syntax::ExplicitLE,
         all_undefined,
         latin1: cs == 1,
         utf8: cs == 2,
+        other_cs: if cs >= 3 { cs as u8 } else { 0 },
         ..Default::default()
     };
     let s = ds::gen_dataset(w, &cfg);
@@ -133,6 +134,8 @@ fn probes_for(env: &EnvRef, m: &[ds::Elem]) {
     if non_ascii(m) {
         match m.iter().find(|e| e.tag == (0x0008, 0x0005)).map(|e| &e.val) {
             Some(ds::Val::Prim(ds::Prim::Text(b))) if b == b"ISO_IR 192" => env.probe("utf8-text"),
+            Some(ds::Val::Prim(ds::Prim::Text(b))) if b == b"ISO_IR 144" => env.probe("cyrillic-text"),
+            Some(ds::Val::Prim(ds::Prim::Text(b))) if b == b"GB18030" => env.probe("gb18030-text"),
             _ => env.probe("latin1-text"),
         }
     }
@@ -429,6 +432,7 @@ fn run_c04(cfg: usize, w: &mut Tape, env: &EnvRef) -> RunResult {
                                     all_undefined: true,
                                     latin1: false,
                                     utf8: false,
+                                    other_cs: 0,
                                 };
                                 let m = ds::gen_dataset(&mut t2, &cfgm);
                                 m.into_iter().find(|x| matches!(x.val, ds::Val::Prim(_)))
